@@ -16,6 +16,7 @@ import (
 	"os"
 	"sort"
 	"strconv"
+	"strings"
 	"time"
 
 	badger "github.com/dgraph-io/badger/v2"
@@ -48,6 +49,7 @@ type event struct {
 	Err    string              `json:"err"`
 	Forced int                 `json:"forced"` // 1: every token of the schedule could be forced
 	Calls  map[string][]string `json:"calls,omitempty"`
+	Asked  int                 `json:"asked"` // search: 1 = every partition was requested exactly once
 }
 
 type world struct {
@@ -91,7 +93,7 @@ func itemId(n int) uuid.UUID {
 }
 
 // dataset with one partition per remote worker (+ optionally a local one)
-func (w *world) dataset(withLocal bool) *storage.Dataset {
+func (w *world) dataset(withLocal, colocated bool) *storage.Dataset {
 	meta := pb.Dataset{Id: uuid.NewV4().Bytes(), Dimension: 3, Space: pb.Space_Euclidean, ReplicationFactor: 1}
 	names := []string{"w1", "w2", "w3"}
 	for i, name := range names {
@@ -99,6 +101,10 @@ func (w *world) dataset(withLocal bool) *storage.Dataset {
 	}
 	if withLocal {
 		meta.Partitions = append(meta.Partitions, &pb.Partition{Id: pid(9).Bytes(), NodeIds: []uint64{1}})
+	}
+	if colocated {
+		// a second partition on w1's node: one worker, two partitions in its request
+		meta.Partitions = append(meta.Partitions, &pb.Partition{Id: pid(4).Bytes(), NodeIds: []uint64{w.nodes["w1"].Id}})
 	}
 	meta.PartitionCount = uint32(len(meta.Partitions))
 	ds, err := storage.NewVerifDataset(meta, w.db, w.tr, w.conn)
@@ -285,7 +291,8 @@ func runScheds(mode string, scheds []sched, out string, seed int64, stride int) 
 	defer bw.Flush()
 	enc := json.NewEncoder(bw)
 	names := []string{"w1", "w2", "w3"}
-	dsets := map[bool]*storage.Dataset{false: w.dataset(false), true: w.dataset(true)}
+	dsets := map[bool]*storage.Dataset{false: w.dataset(false, false), true: w.dataset(true, false)}
+	colo := w.dataset(false, true)
 	// contents: worker j's partition holds scores j and 10+j (as distances from the zero query)
 	parts := map[string][]int{}
 	for j, name := range names {
@@ -294,6 +301,7 @@ func runScheds(mode string, scheds []sched, out string, seed int64, stride int) 
 		n.Sizes[pid(j+1)] = [2]uint64{1 << uint(j), 1 << uint(8+j)}
 		parts[name] = []int{4 * (j + 1), 4 * (10 + j + 1)}
 	}
+	w.nodes["w1"].Items[pid(4)] = []sim.Item{{Id: itemId(40), Score: 2.5}, {Id: itemId(41), Score: 20.5}}
 	localParts := []int{}
 	// the local partition (dataset `true`) holds scores 5 and 6
 	for _, sc := range []int{5, 6} {
@@ -310,6 +318,10 @@ func runScheds(mode string, scheds []sched, out string, seed int64, stride int) 
 		withLocal := mode == "size" && rng.Intn(2) == 0
 		ds := dsets[withLocal]
 		k := []int{1, 2, 3, 8}[rng.Intn(4)]
+		colocated := mode == "search" && rng.Intn(3) == 0
+		if colocated {
+			ds = colo
+		}
 		ev := event{Ev: mode, Hid: hid, O: s.O, S: s.S, K: k, Parts: map[string][]int{}}
 		for j, name := range names {
 			if mode == "size" {
@@ -323,6 +335,9 @@ func runScheds(mode string, scheds []sched, out string, seed int64, stride int) 
 			if mode == "search" {
 				ev.Parts["local"] = localParts
 			}
+		}
+		if colocated {
+			ev.Parts["w1"] = append(append([]int{}, ev.Parts["w1"]...), 10, 82)
 		}
 		var forced bool
 		if mode == "search" {
@@ -358,6 +373,19 @@ func runScheds(mode string, scheds []sched, out string, seed int64, stride int) 
 				ev.Calls[name] = c
 			}
 		}
+		if mode == "search" {
+			ev.Calls = map[string][]string{}
+			for name, n := range w.nodes {
+				c, _ := n.Snapshot()
+				sort.Strings(c)
+				ev.Calls[name] = c
+			}
+			np := 3
+			if colocated {
+				np = 4
+			}
+			ev.Asked = askedOnce(ev.Calls, np)
+		}
 		if ev.Res == nil {
 			ev.Res = [][]int{}
 		}
@@ -366,6 +394,27 @@ func runScheds(mode string, scheds []sched, out string, seed int64, stride int) 
 		}
 		enc.Encode(ev)
 	}
+}
+
+// askedOnce: 1 if every one of the np partitions appears in exactly one request, 0 otherwise
+func askedOnce(calls map[string][]string, np int) int {
+	seen := map[string]int{}
+	for _, cs := range calls {
+		for _, c := range cs {
+			for _, p := range strings.Split(c, ":")[1:] {
+				seen[p]++
+			}
+		}
+	}
+	if len(seen) != np {
+		return 0
+	}
+	for _, n := range seen {
+		if n != 1 {
+			return 0
+		}
+	}
+	return 1
 }
 
 // runParts: SearchPartitions on local partitions; the collector is released
